@@ -415,7 +415,7 @@ func runC10(c c10Case) (err error) {
 	return c10CompareText(&b, ref, c.Results)
 }
 
-var c10ErrPool = []string{"500 Internal Server Error", "Get \"http://x\": dial tcp: connection refused", "404 Not Found", "context deadline exceeded (Client.Timeout exceeded while awaiting headers)", "EOF", "é\n,\"", "503 Service Unavailable"}
+var c10ErrPool = []string{"500 Internal Server Error", "Get \"http://x\": dial tcp: connection refused", "404 Not Found", "context deadline exceeded (Client.Timeout exceeded while awaiting headers)", "EOF", "é\n,\"", "503 Service Unavailable", "no targets to attack", "bad target: x"}
 
 func c10GenResults(t *rapid.T, n int) []c10Res {
 	base := rapid.Int64Range(0, 4e18).Draw(t, "base")
@@ -515,6 +515,14 @@ func c10GenResults(t *rapid.T, n int) []c10Res {
 					rs[i].Latency = rs[i].Latency % 1000
 				}
 			}
+		}
+	}
+	if n >= 1 && rapid.IntRange(0, 9).Draw(t, "hugebytes") == 0 {
+		// one exchange of more than 2^63 bytes (the counters are unsigned 64-bit; the totals stay below 2^64)
+		i := rapid.IntRange(0, n-1).Draw(t, "hugeat")
+		rs[i].In = 1<<63 + rapid.Uint64Range(0, 1<<62).Draw(t, "hugein")
+		if rapid.Bool().Draw(t, "hugeoutalso") {
+			rs[i].Out = 1<<63 - 1 + rapid.Uint64Range(0, 4096).Draw(t, "hugeout")
 		}
 	}
 	// where on the time line: mostly 1970..2100, sometimes across the ends of the int64 nanosecond clock
